@@ -597,8 +597,13 @@ class Engine(Executor):
             for pat, h in self.library.items():
                 if key == pat or (pat.endswith("*()") and key.startswith(pat[:-3]) and key.endswith("()")):
                     return h(self, st, args, kwargs, fn)
-            st.log.append(("unknown-call", fn.tag))
-            return [(st, Opaque(key))]
+            if "logging" in fn.tag or "logger" in fn.tag:
+                # S5: logging calls neither raise nor change modelled state
+                if not hasattr(self, "assumed_used"):
+                    self.assumed_used = set()
+                self.assumed_used.add("S5 logging calls neither raise nor change modelled state")
+                return [(st, Opaque(key) if fn.tag.endswith("getLogger") else sv_none())]
+            raise Unsupported(f"call of the unmodelled library object {fn.tag}")
         if isinstance(fn, CoroV):
             raise Unsupported("calling a coroutine object")
         raise Unsupported(f"call of {fn!r}")
@@ -726,7 +731,7 @@ class Engine(Executor):
             return [(st, ref)]
         ci2, node = init
         fv = FuncV(node, ci2.module, f"{ci2.module.name}:{ci2.name}.__init__", bound_self=ref, cls=ci2.name)
-        return self.bind(self.inline_call(fv, args, kwargs, st), lambda s, _v: [(s, ref)])
+        return self.bind(self.call(fv, args, kwargs, st), lambda s, _v: [(s, ref)])
 
     def enum_lookup(self, st: State, cls: str, v) -> List[Res]:
         members = self.repo.enum_members(cls)
@@ -839,9 +844,10 @@ class Engine(Executor):
 
     def b_isinstance(self, st, args, kwargs, fn):
         v, c = args
-        classes = [x.name for x in c.items] if isinstance(c, Tup) else [c.name] if isinstance(c, ClassV) else None
-        if classes is None or not all(isinstance(x, str) for x in classes):
+        cl = list(c.items) if isinstance(c, Tup) else [c]
+        if not all(isinstance(x, (ClassV, BuiltinV)) for x in cl):
             raise Unsupported("isinstance with a non-class")
+        classes = [x.name for x in cl]
         return [(st, sv_bool(self.isinstance_cond(st, v, classes)))]
 
     def isinstance_cond(self, st: State, v, classes: List[str]) -> z3.BoolRef:
@@ -1090,6 +1096,11 @@ class Engine(Executor):
 
     def b_str_strip(self, st, args, kwargs, fn):
         v: SV = fn.bound
+        hook = getattr(self, "strip_hook", None)
+        if hook is not None:
+            r = hook(self, st, v)
+            if r is not None:
+                return [(st, r)]
         f = z3.Function("str_strip", z3.StringSort(), z3.StringSort())
         return [(st, SV(mk_s(f(Sc.sv(v.t))), "str"))]
 
